@@ -119,7 +119,7 @@ def _chunk_class(n, chunk):
 def _v(codec, api, mode, cls, form, exp, got, **kw):
     sig = {"codec": codec, "api": api, "mode": mode, "class": cls}
     sig.update(kw)
-    return (sig, {"form": form[:1200] + ("..." if len(form) > 1200 else ""), "expected": show(exp), "observed": show(got)})
+    return (sig, {"form": form[:40000] + ("..." if len(form) > 40000 else ""), "expected": show(exp), "observed": show(got)})
 
 
 def _judge_b64(form, d, py, api, variant):
@@ -721,7 +721,7 @@ def _judge_hostile(form, codec, api):
 
 
 # ---------------------------------------------------------------------------------------------
-def run_cases(rep, build, variant, cases, batch, timeout, stats):
+def run_cases(rep, build, variant, cases, batch, timeout, stats, state):
     for i, c in enumerate(cases):
         c.id = "%s%d" % (variant[0], i)
     pairs = [(c.id, "(%%case %s %s)" % (c.id, c.form)) for c in cases if not c.own_process]
@@ -732,7 +732,7 @@ def run_cases(rep, build, variant, cases, batch, timeout, stats):
         r2, p2 = C.run_batches(build, IMPORTS, HEADER, own, batch=1, env_extra=env, timeout=timeout, heap="64M/768M", prelude=PRELUDE)
         res.update(r2)
         procs += p2
-    json_fail = {}
+    json_fail = state.setdefault("json_fail", {})      # (class, mode) of atomic JSON failures, kept across chunks
     pending = []
     for c in cases:
         r = res.get(c.id)
@@ -759,7 +759,7 @@ def run_cases(rep, build, variant, cases, batch, timeout, stats):
             if c.info and c.info.get("oob"):
                 sig["op"] = c.info["op"]
                 sig["class"] = c.info["cls"]
-            rep.violation(sig, {"variant": variant, "form": c.form[:1500], "detail": r.detail})
+            rep.violation(sig, {"variant": variant, "form": c.form[:40000], "detail": r.detail})
             continue
         try:
             data = r.data()
@@ -817,47 +817,60 @@ def check(rep, tier, seed):
     b = B.ensure("hooks")
     rep.builds.add("hooks")
     stats = {}
+    state = {}
     cases = []
     cases += b64_cases(rng, quick)
     cases += qp_cases(rng, quick)
     cases += uri_cases(rng, quick)
-    cases += J.make_cases(rng, 1500 if quick else 60000)
+    cases += J.make_cases(rng, 1500)
     cases += csv_cases(rng, quick)
     cases += utf_cases(rng, quick)
-    acc = ACC.mkcases(rng, quick)
-    if not quick:
-        for k in range(40):
-            acc += [c for c in ACC.mkcases(random.Random(seed * 31 + k), quick) if not (c.info and c.info.get("oob"))]
-    cases += acc
+    cases += ACC.mkcases(rng, quick)
     n_round = len(cases)
-    host = hostile_cases(rng, 12000 if quick else 600000)
-    nproc = run_cases(rep, b, "hooks", cases + host, 400, 90 if quick else 240, stats)
-    # the same hostile inputs (a sample) and the accessor sweep under ASan with red zones
+    host = hostile_cases(rng, 12000)
+    timeout = 90 if quick else 240
+    nproc = run_cases(rep, b, "hooks", cases + host, 400, timeout, stats, state)
+    n_host = len(host)
+    samples = cases[:3] + host[:3]
+    if not quick:
+        # the thorough tier adds chunks (bounded memory): composite JSON values, accessor sweeps with other
+        # random data, hostile inputs
+        for k in range(20):
+            crng = random.Random(seed * 7919 + 100 + k)
+            more = J.composite_cases(crng, 5000)
+            more += [c for c in ACC.mkcases(crng, quick) if not (c.info and c.info.get("oob"))]
+            more += [c for c in b64_cases(crng, True) + qp_cases(crng, True) + csv_cases(crng, True) + uri_cases(crng, True) + utf_cases(crng, True)]
+            h = hostile_cases(crng, 50000)
+            n_round += len(more)
+            n_host += len(h)
+            nproc += run_cases(rep, b, "hooks", more + h, 500, timeout, stats, state)
+    # the same kind of hostile inputs and the accessor sweep under ASan with red zones
     ba = B.ensure("asan-rz")
     rep.builds.add("asan-rz")
-    arng = random.Random(seed * 7919 + 1919)
-    ahost = hostile_cases(arng, 3000 if quick else 150000)
-    aacc = ACC.mkcases(arng, quick)
-    for c in aacc:
-        if c.info and c.info.get("oob"):
-            c.own_process = True
-    # one out-of-range access per accessor and class is enough under ASan (each one ends its process)
-    seen = set()
-    keep = []
-    for c in aacc:
-        if c.info and c.info.get("oob"):
-            k = (c.info["op"].replace("-native", ""), c.info["cls"])
-            if c.info["cls"] in ("at-length", "past-end") or k in seen:
-                continue
-            seen.add(k)
-        keep.append(c)
-    nproc += run_cases(rep, ba, "asan-rz", ahost + keep, 400, 120 if quick else 300, stats)
-    for c in cases[:3] + host[:3]:
+    n_ahost = 0
+    for k in range(1 if quick else 6):
+        arng = random.Random(seed * 7919 + 1919 + k)
+        ahost = hostile_cases(arng, 3000 if quick else 25000)
+        n_ahost += len(ahost)
+        aacc = ACC.mkcases(arng, quick)
+        # one out-of-range access per accessor and class is enough under ASan (each one ends its process)
+        seen = set()
+        keep = []
+        for c in aacc:
+            if c.info and c.info.get("oob"):
+                key = (c.info["op"].replace("-native", ""), c.info["cls"])
+                if k > 0 or c.info["cls"] in ("at-length", "past-end") or key in seen:
+                    continue
+                seen.add(key)
+                c.own_process = True
+            keep.append(c)
+        nproc += run_cases(rep, ba, "asan-rz", ahost + keep, 400, 120 if quick else 300, stats, state)
+    for c in samples:
         rep.sample({"signature": list(c.sig), "form": c.form[:300]})
     rep.extra["cases_by_codec"] = stats
     rep.extra["round_trip_cases"] = n_round
-    rep.extra["hostile_inputs_hooks"] = len(host)
-    rep.extra["hostile_inputs_asan"] = len(ahost)
+    rep.extra["hostile_inputs_hooks"] = n_host
+    rep.extra["hostile_inputs_asan"] = n_ahost
     rep.extra["processes"] = nproc
     rep.rule = ("per codec (base64 incl. string/port/header variants, quoted-printable, URI escaping and query strings, JSON, CSV with 6 grammars, "
                 "UTF-8/16/32, numeric accessors of (scheme bytevector), (chibi bytevector), (srfi 160)): byte strings of every length 0-100 and "
@@ -874,3 +887,24 @@ def check(rep, tier, seed):
                        "mini-float conversions of non-representable values only have to land on a neighbouring representable value",
                        "for hostile input any value and any Scheme error is accepted; only crashes, sanitizer reports and watchdog expiry count",
                        "out-of-range accessor offsets are probed inside the allocation slack of a 17-byte bytevector on the non-ASan build"]
+
+
+def replay(path):
+    """Re-run the witness forms of a replay file on the build variant they were observed on; prints the raw observation."""
+    with open(path) as fh:
+        data = json.load(fh)
+    print("signature:", json.dumps(data.get("signature")))
+    for w in data.get("witnesses", []):
+        form = w.get("form")
+        if not form or form.endswith("..."):
+            print("  (witness form was truncated; see the replay file)")
+            continue
+        b = B.ensure(w.get("variant", "hooks"))
+        res, procs = C.run_file(b, IMPORTS, HEADER, [("w", "(%%case w %s)" % form)], prelude=PRELUDE, heap="64M/768M")
+        r = res.get("w")
+        print("  form:    ", form[:400])
+        print("  expected:", w.get("expected"))
+        print("  observed:", (r.status, r.text.strip()[:600]) if r else None)
+        if r is not None and r.detail and r.detail.get("sanitizer"):
+            print("  sanitizer:", r.detail["sanitizer"])
+    return 0
